@@ -326,7 +326,7 @@ func checkC10(ctx *core.Ctx, rep *core.Report) {
 	rep.Note("shared registry: %s", rdesc)
 	all := seeds.Load()
 	// focused scenarios first: they are small and must complete before any internal deadline
-	scs := append(c10Focused(all, rep), c10Scenarios(reg, all)...)
+	scs := append(append(c10Focused(all, rep), c10FocusedOtherKinds(all, rep)...), c10Scenarios(reg, all)...)
 	bound := argInt(ctx, "bound", 2)
 	coarseBound := argInt(ctx, "coarse", 1)
 	rlockCoarse := ctx.Args["rlock_coarse"] == "1"
@@ -470,4 +470,81 @@ func compress(ch []int) []string {
 	}
 	out = append(out, fmt.Sprintf("len=%d", len(ch)))
 	return out
+}
+
+// c10FocusedOtherKinds: the same discovery for CRL and OCSP lints — every lint of those kinds alone on every CRL / OCSP seed
+// and on its wide-serial variant (entry serials wider than 64 bits: the values a lint cannot keep in a machine word);
+// lints that reach a fine-grained yield give scenarios lint oi ∥ lint oj over the objects that reach it.
+func c10FocusedOtherKinds(all []seeds.Seed, rep *core.Report) []c10Scenario {
+	g := lint.GlobalRegistry()
+	var objs []*seeds.Seed
+	for i := range all {
+		if all[i].Kind == seeds.Cert {
+			continue
+		}
+		objs = append(objs, &all[i])
+		if w := wideSerials(all[i].Kind, all[i].DER); w != nil {
+			objs = append(objs, &seeds.Seed{Name: all[i].Name + "+wide-serials", Kind: all[i].Kind, DER: w})
+		}
+	}
+	var names []string
+	for _, l := range g.RevocationListLints().Lints() {
+		names = append(names, l.Name)
+	}
+	for _, l := range g.OcspResponseLints().Lints() {
+		names = append(names, l.Name)
+	}
+	hitLints := map[string]bool{}
+	hitObjs := map[int]int{}
+	for _, n := range names {
+		r1, err := g.Filter(lint.FilterOptions{IncludeNames: []string{n}})
+		if err != nil {
+			continue
+		}
+		for oi, sd := range objs {
+			op := opLint("probe", sd, r1)
+			x := sched.Execute(func(r *sched.Run) { verifsync.S = r }, func() { verifsync.S = nil }, []func(){func() { op.run() }}, nil, false)
+			for _, p := range x.Points {
+				if strings.HasPrefix(p.Kind, "yield:") && !strings.HasPrefix(p.Kind, "yield:resultset.go") {
+					hitLints[n] = true
+					hitObjs[oi]++
+				}
+			}
+		}
+	}
+	if len(hitLints) == 0 {
+		return nil
+	}
+	var chosen []string
+	for n := range hitLints {
+		chosen = append(chosen, n)
+	}
+	sort.Strings(chosen)
+	reg, err := g.Filter(lint.FilterOptions{IncludeNames: chosen})
+	if err != nil {
+		return nil
+	}
+	// the objects with most yield hits, at most four
+	var idxs []int
+	for oi := range hitObjs {
+		idxs = append(idxs, oi)
+	}
+	sort.Slice(idxs, func(a, b int) bool {
+		if hitObjs[idxs[a]] != hitObjs[idxs[b]] {
+			return hitObjs[idxs[a]] > hitObjs[idxs[b]]
+		}
+		return idxs[a] < idxs[b]
+	})
+	if len(idxs) > 4 {
+		idxs = idxs[:4]
+	}
+	rep.Note("focused scenarios (CRL/OCSP): %d lints reach fine-grained yields on %d objects; registry %v", len(hitLints), len(hitObjs), chosen)
+	var sc []c10Scenario
+	for _, a := range idxs {
+		for _, b := range idxs {
+			sc = append(sc, c10Scenario{fmt.Sprintf("focused: lint %s ∥ lint %s", objs[a].Name, objs[b].Name),
+				[][]c10Op{{opLint(objs[a].Name, objs[a], reg)}, {opLint(objs[b].Name+"'", objs[b], reg)}}})
+		}
+	}
+	return sc
 }
